@@ -15,6 +15,7 @@ import (
 	"fmt"
 	"io"
 	"os"
+	"sort"
 	"strings"
 	"testing"
 	"time"
@@ -374,7 +375,8 @@ func TestVerifC18(t *testing.T) {
 	}
 
 	// (i) small streams: all fragmentations, several initial buffer sizes; all truncations
-	for name, boxes := range small {
+	for _, name := range c18SortedKeys(small) { // sorted: every worker must see the same sequence of cases
+		boxes := small[name]
 		data := c18Stream(boxes)
 		for _, bs := range []int{0, 1, 8, len(data), 1024} {
 			if !mine() {
@@ -449,10 +451,22 @@ func TestVerifC18(t *testing.T) {
 		"init+chunked":    append(append([]byte{}, vinit...), media...),
 		"chunked+chunked": append(append([]byte{}, media...), media...),
 	}
-	for name, data := range real {
-		bufs := []int{0, 1, 7, 8, 9, 1024, len(data) - 1, len(data), len(data) + 1}
+	// synthetic streams with size coincidences between consecutive chunks: a non-mdat box of the
+	// next chunk (or a trailing box) ends at the offset at which the previous chunk ended
+	for n, bx := range map[string][]c18Box{
+		"coinc/mdat8+moof8+mdat8":                {{"mdat", 8}, {"moof", 8}, {"mdat", 8}},
+		"coinc/moof8+mdat12+moof20+mdat10":       {{"moof", 8}, {"mdat", 12}, {"moof", 20}, {"mdat", 10}},
+		"coinc/moof8+mdat8+free16":               {{"moof", 8}, {"mdat", 8}, {"free", 16}},
+		"coinc/moof10+mdat30+styp8+moof32+mdat9": {{"moof", 10}, {"mdat", 30}, {"styp", 8}, {"moof", 32}, {"mdat", 9}},
+	} {
+		real[n] = c18Stream(bx)
+	}
+	for _, name := range c18SortedKeys(real) {
+		data := real[name]
+		// buffers that leave more than 1 KiB unused when they have to grow, as well
+		bufs := []int{0, 1, 7, 8, 9, 1024, 2048, 4096, 16384, len(data) / 2, len(data) - 1, len(data), len(data) + 1}
 		if quick {
-			bufs = []int{0, 9, 1024, len(data)}
+			bufs = []int{0, 9, 1024, 4096, len(data)}
 		}
 		for _, bs := range bufs {
 			if !mine() {
@@ -505,7 +519,8 @@ func TestVerifC18(t *testing.T) {
 		corruptBase[k] = v
 	}
 	corruptBase["zero+mdat"] = []c18Box{{"\x00\x00\x00\x00", 8}, {"mdat", 10}}
-	for name, boxes := range corruptBase {
+	for _, name := range c18SortedKeys(corruptBase) {
+		boxes := corruptBase[name]
 		if !mine() {
 			continue
 		}
@@ -602,4 +617,15 @@ func c18Trunc(b []byte, n int) []byte {
 		return b[:n]
 	}
 	return b
+}
+
+// c18SortedKeys: map iteration order differs between worker processes; the division of cases
+// over the workers needs one order.
+func c18SortedKeys[V any](m map[string]V) []string {
+	ks := make([]string, 0, len(m))
+	for k := range m {
+		ks = append(ks, k)
+	}
+	sort.Strings(ks)
+	return ks
 }
